@@ -15,9 +15,14 @@
 
    A case with a seventh header field of 1 is run here ([run_any] dispatches);
    the harness then prints one record [11; which; y; nsp; span*; cache] per row
-   after the records of [Case.enc_obs].  Rune mode, span buffer. *)
+   after the records of [Case.enc_obs].  Rune mode, span buffer.
+
+   The width oracle is [uwc] of Model/Uniseg.v - the model of uniseg.StringWidth over the tables generated from the
+   library source, tied code point by code point by the uniseg engine - and not the per-case table of the cell-level
+   check: raw invalid bytes written in separate operations can recombine into a character that occurs nowhere in the
+   input (known finding D13), and the table, computed from the input, does not list it. *)
 From Coq Require Import List ZArith Bool.
-From Termemu Require Import Base Style Screen Kbd Parser Term Span SpanScreen Case SpanCase Grapheme.
+From Termemu Require Import Base Style Screen Kbd Parser Term Span SpanScreen Case SpanCase Uniseg Grapheme.
 Import ListNotations.
 Open Scope Z_scope.
 
@@ -37,7 +42,7 @@ Definition s_clear_io (t : sterm) : sterm :=
 Record scst := mkScst { sc_t : sterm; sc_pend : list Z; sc_mw : option Z; sc_tbl : list Z; sc_idx : Z }.
 
 Definition s_run_op (st : scst) (line : list Z) : scst * list (list Z) :=
-  let wc := wc_of (sc_tbl st) in
+  let wc := uwc in
   match line with
   | 110 :: bs =>
       if s_crashed (sc_t st) then (st, enc_sobs wc (sc_idx st) (sc_t st) (zlen (sc_pend st))) else
@@ -63,7 +68,7 @@ Definition s_start (wc : Z -> Z) (w h : Z) : sterm := s_clear_io (s_resize wc w 
 Definition run_scase (lines : list (list Z)) : list (list Z) :=
   match lines with
   | (100 :: _ :: _ :: w :: h :: _) :: (101 :: tbl) :: rest =>
-      let t0 := s_start (wc_of tbl) w h in
+      let t0 := s_start uwc w h in
       s_run_ops (mkScst t0 [] (Some (max_width (s_active t0))) tbl 0) rest
   | _ => [[0]]
   end.
